@@ -37,9 +37,9 @@
 //! Exploration: iterative deepening (length 1 in every pass, then 2, ...), histories enumerated on
 //! the model (a history is extended only through letters the model accepts and whose history was
 //! clean on the real database), executed by prefix re-execution from a fresh directory.  Histories
-//! up to length 2 (beyond the pass's setup) are executed by every worker (they need the divergence
-//! information) and reported by the owner `ctx.mine(hash)`; the owner of a length-2 prefix owns its
-//! whole subtree.
+//! of length <= 2 (beyond the pass's setup) are owned one by one (`ctx.mine(hash)`) and run with the
+//! oracle after every step (their prefix may belong to another worker); the owner of a length-2
+//! prefix owns its whole subtree and verifies the prefix once before descending.
 //!
 //! Passes: `full:*` whole alphabet, every construct; `clean:*` the same alphabets minus exactly the
 //! constructs listed in findings.d/C21.json (see `avoid`), so that the defect-free remainder is
@@ -822,7 +822,13 @@ fn avoid(hist: &[Op], m: &Model, op: Op) -> Option<&'static str> {
         // KF-C21-02: the DEFAULT of an added column is not applied to existing rows
         AZD | AYD if nonempty => return Some("KF-C21-02 ADD COLUMN DEFAULT on existing rows"),
         // KF-C21-04: rows written before an ADD COLUMN panic in key / index lookups
-        AZ if nonempty => return Some("KF-C21-04 ADD COLUMN on existing rows"),
+        // (a table without primary key and index reads such rows correctly: kept, but no index may be created
+        // while rows written before an ADD COLUMN can exist)
+        AZ if nonempty && (t.map(|t| !t.def.pk_cols().is_empty()).unwrap_or(false) || m.st.indexes.values().any(|ix| ix.table == "t")) => return Some("KF-C21-04 ADD COLUMN on existing rows"),
+        CI if t.is_some() && {
+            let from = hist.iter().rposition(|o| matches!(o, CT1 | CT2)).unwrap_or(0);
+            hist[from..].iter().any(|o| matches!(o, AZ | AZD | AYD | AZN))
+        } => return Some("KF-C21-04 CREATE INDEX over rows older than an ADD COLUMN"),
         // KF-C21-07: CREATE INDEX on a column that does not exist is accepted
         CI if t.is_some() && !has("b") && !m.st.indexes.contains_key("ib") => return Some("KF-C21-07 CREATE INDEX on a missing column"),
         // KF-C21-08: RENAME COLUMN onto an existing name is accepted
